@@ -361,26 +361,52 @@ def loop_check(ctx, o):
         return
     tv, ev = names
     found = {'end->start': False, 'end->children': False, 'start->pred': False, 'start->parent': False}
-    for r in rets:
-        conds = facts.node_conditions(prog, wf, r, ctx.typer, expand=False)
-        is_end = None
-        for t, p in conds:
-            if isinstance(t, ast.Name) and t.id == ev:
-                is_end = p
-        v = r.value
-        txt = src(exw.expand(v))
-        if is_end is True:
-            if f"({tv}, False)" in txt:
-                found['end->start'] = True
-            if f"for ch in {tv}.children" in txt or f"in {tv}.children]" in txt:
-                found['end->children'] = True
-        else:
-            # the start branch may build `res` incrementally
-            body_txt = ' ; '.join(src(s) for s in wf.body)
-            if f"in {tv}.predecessors" in body_txt and "True)" in body_txt:
-                found['start->pred'] = True
-            if f"({tv}.parent, False)" in body_txt:
-                found['start->parent'] = True
+
+    def pairs_in(nodes):
+        """(task expression, flag constant, comprehension source or None) of every 2-tuple literal with a bool flag"""
+        res = []
+        for root in nodes:
+            for n in ast.walk(root):
+                if isinstance(n, ast.Tuple) and len(n.elts) == 2 and isinstance(n.elts[1], ast.Constant) and isinstance(n.elts[1].value, bool):
+                    res.append(n)
+        return res
+
+    def source_of(tup, roots):
+        """iterable of the comprehension that produces tuple `tup` (None when it is a plain element)"""
+        for root in roots:
+            for n in ast.walk(root):
+                if isinstance(n, (ast.ListComp, ast.GeneratorExp)) and n.elt is tup and len(n.generators) == 1:
+                    return n.generators[0]
+        return None
+
+    # statements of the function split by the `is_end` test
+    end_nodes, start_nodes = [], []
+    for st in walk_no_nested(wf.node):
+        if isinstance(st, (ast.Return, ast.Assign, ast.AugAssign, ast.Expr)) and not isinstance(getattr(st, 'value', None), ast.Constant):
+            conds = facts.node_conditions(prog, wf, st, ctx.typer, expand=False)
+            flag = None
+            for t, p in conds:
+                if isinstance(t, ast.Name) and t.id == ev:
+                    flag = p
+                elif isinstance(t, ast.UnaryOp) and isinstance(t.op, ast.Not) and isinstance(t.operand, ast.Name) and t.operand.id == ev:
+                    flag = not p
+            (end_nodes if flag is True else start_nodes).append(st)
+    for tup in pairs_in(end_nodes):
+        gen = source_of(tup, end_nodes)
+        tgt, flag = tup.elts[0], tup.elts[1].value
+        if gen is None and isinstance(tgt, ast.Name) and tgt.id == tv and flag is False:
+            found['end->start'] = True
+        if gen is not None and match(f"{tv}.children", gen.iter) and isinstance(gen.target, ast.Name) and isinstance(tgt, ast.Name) and \
+                tgt.id == gen.target.id and flag is True and not gen.ifs:
+            found['end->children'] = True
+    for tup in pairs_in(start_nodes):
+        gen = source_of(tup, start_nodes)
+        tgt, flag = tup.elts[0], tup.elts[1].value
+        if gen is not None and match(f"{tv}.predecessors", gen.iter) and isinstance(gen.target, ast.Name) and isinstance(tgt, ast.Name) and \
+                tgt.id == gen.target.id and flag is True and not gen.ifs:
+            found['start->pred'] = True
+        if gen is None and match(f"{tv}.parent", tgt) and flag is False:
+            found['start->parent'] = True
     for k, v in found.items():
         if v:
             o.site(wf, wf.node, f"edge {k}")
